@@ -27,9 +27,9 @@ func init() {
 			"ids are distinct within a block (first-match lookup is then unambiguous)",
 		},
 		Strata: []fw.Stratum{
-			{Name: "grammar-images", N: fw.Const(500000, 10000000), Run: c03Grammar},
-			{Name: "accepted-mutants", N: fw.Const(1000000, 20000000), Run: c03Mutant},
-			{Name: "block-views", N: fw.Const(300000, 6000000), Run: c03Views},
+			{Name: "grammar-images", N: fw.Const(1500000, 15000000), Run: c03Grammar},
+			{Name: "accepted-mutants", N: fw.Const(2500000, 25000000), Run: c03Mutant},
+			{Name: "block-views", N: fw.Const(900000, 9000000), Run: c03Views},
 		},
 	})
 }
